@@ -36,10 +36,13 @@ type TxnOp struct {
 }
 
 type TxnBody struct {
-	B2NoWS     bool    `json:"b2_no_ws,omitempty"` // C22: branch b2 starts without a working set (as a branch that arrived by push)
-	NSess      int     `json:"nsess"`
-	Autocommit []bool  `json:"autocommit"`
-	Ops        []TxnOp `json:"ops"`
+	B2NoWS     bool   `json:"b2_no_ws,omitempty"` // C22: branch b2 starts without a working set (as a branch that arrived by push)
+	NSess      int    `json:"nsess"`
+	Autocommit []bool `json:"autocommit"`
+	// TxCommit: sessions with @@dolt_transaction_commit = 1 (C23): every SQL commit of theirs also
+	// creates a dolt commit
+	TxCommit []bool  `json:"tx_commit,omitempty"`
+	Ops      []TxnOp `json:"ops"`
 	// Crash: the run ends with one more transaction whose COMMIT the server does not survive: crash
 	// images at the structural file-system events of that statement and after it (crash.go).
 	Crash bool      `json:"crash,omitempty"`
@@ -60,6 +63,12 @@ func (h TXN) Generate(seed uint64, tier string) *core.Scenario {
 	n := r.Range(20, 70)
 	if tier == "thorough" {
 		n = r.Range(20, 160)
+	}
+	if h.Prop == "C23" {
+		kr := core.NewRand(seed ^ 0x23)
+		for i := 0; i < b.NSess; i++ {
+			b.TxCommit = append(b.TxCommit, kr.Chance(1, 3))
+		}
 	}
 	b.B2NoWS = h.Prop == "C22" && r.Chance(1, 2)
 	b1Weight := []int{10, 25, 50}[r.Intn(3)] // C25: how busy the second branch is in this run
@@ -312,6 +321,12 @@ func (h TXN) Execute(t *testing.T, sc *core.Scenario) *core.Result {
 		var ms []*msess
 		for i := 0; i < b.NSess; i++ {
 			s, err := w.NewSession(ctx, b.Autocommit[i])
+			if err == nil && i < len(b.TxCommit) && b.TxCommit[i] {
+				err = s.MustExec(ctx, "SET @@dolt_transaction_commit = 1")
+				// (with autocommit off the SET has opened a transaction: end it, as NewSession does after its own SET)
+				s.Exec(ctx, "ROLLBACK")
+				res.Probe("knob:dolt_transaction_commit")
+			}
 			if err != nil {
 				res.Panic = "session: " + err.Error()
 				return nil, nil, false
